@@ -39,7 +39,7 @@ RULE = ("Five case types. stripe: a common-mode disturbance (1-5 sinusoids, AP 3
         "with >= 2 groups and a non-default operator / lagc / pad / btype / kfilt; agc with window > 1 and non-zero "
         "data. Distinct = distinct case hash. Dimensions drawn on top of every case type (all as case fields with class "
         "labels): memory layout of the data (C, Fortran order = `block.T`, window of a larger array, every other row/column, "
-        "negative strides, read-only wherever the unchanged code accepts it - not for agc and for kfilt / fk with gain "
+        "rows in reverse order (negative stride), read-only wherever the unchanged code accepts it - not for agc and for kfilt / fk with gain "
         "control and no groups, which write to their input by design), float32 / float64 data, label vector as float64 / "
         "float32 / int64 / int8 / uint8, read-only header / label / group arrays; call form of destripe / destripe_lfp: header "
         "+ version, version only (destripe_lfp: nothing = NP1), header with neuropixel_version left at its default, header "
@@ -227,8 +227,9 @@ TOL_REPEAT = 1e-12
 def _lay(x, layout):
     """The values of the 2-D array x as a new array object in the drawn memory layout. F: Fortran order (what `block.T`
     of a (samples, channels) reader block is); sliced: a window of a larger array (rows not adjacent in memory);
-    strided: every other row and column of a larger array; neg: negative strides on both axes; ro / ro_F: read-only
-    (what np.memmap(mode='r') hands out)."""
+    strided: every other row and column of a larger array; neg: rows stored in reverse order (negative row stride; unlike
+    a block reversed on both axes it cannot be flattened without a copy); ro / ro_F: read-only (what np.memmap(mode='r')
+    hands out)."""
     x = np.asarray(x)
     n0, n1 = x.shape
     if layout in ("F", "ro_F"):
@@ -242,7 +243,7 @@ def _lay(x, layout):
         big[::2, 1::2] = x
         v = big[::2, 1::2]
     elif layout == "neg":
-        v = np.array(x[::-1, ::-1], order="C")[::-1, ::-1]
+        v = np.array(x[::-1], order="C")[::-1]
     else:
         v = np.array(x, order="C")
     if layout.startswith("ro"):
@@ -435,7 +436,10 @@ def _st_kk(draw, kf):
     if draw(st.integers(0, 9)) < 6:
         return None
     if not kf:
-        return draw(st.sampled_from([{}, {"operator": "median"}, {"operator": "average"}]))
+        kk = dict(draw(st.sampled_from([{}, {"operator": "median"}, {"operator": "average"}])))
+        if draw(st.booleans()):   # the dictionary a caller uses for both variants (destripe's own default goes to car too)
+            kk.update({"ntr_pad": 60, "ntr_tap": 0, "lagc": 3000, "butter_kwargs": {"N": 3, "Wn": 0.01, "btype": "highpass"}})
+        return kk
     return {"ntr_pad": draw(st.sampled_from([0, 20, 60])), "ntr_tap": 0,
             "lagc": draw(st.sampled_from([None, 300, 1000, 3000, 4500])),
             "butter_kwargs": {"N": 3, "Wn": draw(st.sampled_from([0.01, 0.02, 0.05])), "btype": "highpass"}}
@@ -464,16 +468,16 @@ def _st_ns(draw, case):
 
 
 def _st_butter(draw, lfp):
-    """butter_kwargs: left at the default (2 of 3), the default written out, or another corner / order in one of the
+    """butter_kwargs: left at the default (AP 2 of 3, LFP 1 of 3), the default written out, or another corner / order in one of the
     parametrisations scipy accepts (the LFP resampler of the repository builds Wn as an array)."""
     k = draw(st.integers(0, 8))
-    if k < 6:
+    if k < (3 if lfp else 6):
         return None
     if k == 6:
         return "explicit"
     if lfp:
-        return {"N": draw(st.sampled_from([2, 3])), "fc": draw(st.sampled_from([[0.5, 300.0], [2.0, 200.0], [1.0, 400.0]])),
-                "form": draw(st.sampled_from(["fs", "norm", "array"]))}
+        n, fc = draw(st.sampled_from([(3, [2.0, 200.0]), (2, [0.5, 300.0]), (2, [2.0, 200.0]), (3, [1.0, 400.0])]))
+        return {"N": n, "fc": list(fc), "form": draw(st.sampled_from(["fs", "norm", "array"]))}
     return {"N": draw(st.sampled_from([2, 3, 4])), "fc": draw(st.sampled_from([150.0, 300.0, 600.0])),
             "form": draw(st.sampled_from(["fs", "norm", "array"]))}
 
@@ -491,7 +495,7 @@ def _st_dims(draw, case):
     """Memory layout of the data, read-only header / label arrays, dtype of the label vector, k_filter given or defaulted."""
     case["layout"] = draw(st.sampled_from(["C", "C", "F", "F", "sliced", "neg", "ro", "ro_F"]))
     case["aux_ro"] = draw(st.integers(0, 3)) == 0
-    case["lab_dtype"] = draw(st.sampled_from(["f8", "f8", "i8", "i1", "u1", "f4"])) if case.get("labels") else "f8"
+    case["lab_dtype"] = draw(st.sampled_from(["f8", "u1", "i8", "u1", "i1", "f4"])) if case.get("labels") else "f8"
     case["kf_form"] = draw(st.sampled_from(["explicit", "default"]))
 
 
@@ -514,13 +518,16 @@ def _st_stripe(draw):
             "comps": _st_comps(draw, lfp), "mode": mode, "env": env,
             "amp_uv": draw(st.sampled_from([10.0, 50.0, 200.0, 1000.0, 2000.0])),
             "dtype": "f4" if draw(st.integers(0, 4)) == 0 else "f8",
-            "kk": None if lfp else _st_kk(draw, kf),
-            "labels": _st_labels(draw, far=False, need3=False) if draw(st.integers(0, 2)) == 0 else None}
+            "kk": None if lfp else _st_kk(draw, kf)}
     case["butter"] = _st_butter(draw, lfp)
+    if isinstance(case["butter"], dict):   # the channels labelled 3 (== temporal filter + re-alignment) pin a non-default filter
+        case["labels"] = _st_labels(draw, far=False, need3=True)
+    else:
+        case["labels"] = _st_labels(draw, far=False, need3=False) if draw(st.integers(0, 2)) == 0 else None
     _st_dims(draw, case)
-    # re-use: the same argument objects a second time (1 in 6), or after a call with another header / labels / data (1 in 10)
+    # re-use: the same argument objects a second time (2 in 15), or after a call with another header / labels / data (1 in 15)
     k = draw(st.integers(0, 29))
-    case["reuse"] = "same" if k < 5 else ("polluted" if k < 8 else None)
+    case["reuse"] = "same" if k < 4 else ("polluted" if k < 6 else None)
     case["ns"] = draw(st.integers(4000, 6000)) if case["reuse"] else _st_ns(draw, case)
     return case
 
@@ -554,7 +561,7 @@ def _st_spike(draw):
 @st.composite
 def _st_labels_case(draw):
     probe = draw(st.sampled_from(PROBE_NAMES))
-    lfp = draw(st.integers(0, 7)) == 0
+    lfp = draw(st.integers(0, 3)) == 0
     nc = draw(st.sampled_from([384, 384, 192]))
     case = {"t": "labels", "probe": probe, "lfp": lfp, "kf": draw(st.booleans()), "nc": nc,
             "hmode": _st_hmode(draw, probe, lfp, nc), "kk": None, "labels": _st_labels(draw, far=True, need3=True),
@@ -669,7 +676,7 @@ def _st_agc(draw, tier):
         wl, si = 0.5, 0.002
     else:
         form = "explicit"
-    nc = draw(st.integers(1, 24))
+    nc = draw(st.one_of(st.integers(2, 24), st.integers(1, 24)))   # a single row is C- and Fortran-contiguous at once
     return {"t": "agc", "nc": nc, "ns": ns, "wl": wl, "si": si, "ns_win": ns_win, "pow3": pow3, "form": form,
             "layout": draw(st.sampled_from(["C", "C", "F", "strided", "neg"])), "again": draw(st.integers(0, 2)) == 0,
             "eps": draw(st.sampled_from([None, None, 1e-8, 1e-6, 1e-3, 1.0])),
